@@ -1617,7 +1617,13 @@ pub async fn reload_config(client_server_map: ClientServerMap) -> Result<bool, E
 
     if old_config != new_config {
         info!("Config changed, reloading");
-        ConnectionPool::from_config(client_server_map).await?;
+        if let Err(err) = ConnectionPool::from_config(client_server_map).await {
+            // The pools are still the old ones: keep the configuration in step with them,
+            // otherwise reloading the same file again would find nothing to do.
+            error!("Config reload error: {:?}", err);
+            CONFIG.store(Arc::new(old_config));
+            return Err(err);
+        }
         Ok(true)
     } else {
         Ok(false)
